@@ -106,6 +106,29 @@ def lint_files(files, externals=()):
     return syntax, mods, em, terms, ext
 
 
+def gen_hwopt_request(rnd):
+    """a processor assembled from BASM (so that the requirement tree exists) and rendered with the opt-in hardware optimisations, which
+    prune the arms of the per-opcode state machines down to the registers the program uses as destination / source of that opcode"""
+    nreg = rnd.choice([3, 4])
+    lines = ["%%meta bmdef global registersize:%d" % rnd.choice([8, 16]), "%section code .romtext iomode:async", "  entry _start", "_start:"]
+    two = ["add", "mult", "addp", "multp", "divp", "cpy"]
+    for _ in range(rnd.randint(4, 10)):
+        c = rnd.randrange(10)
+        d, s_ = rnd.sample(range(nreg), 2)         # destination and source differ: the two requirement sets of an opcode differ
+        if c < 5:
+            lines.append("  %s r%d, r%d" % (rnd.choice(two), d, s_))
+        elif c < 7:
+            lines.append("  %s r%d" % (rnd.choice(["inc", "dec", "clr"]), d))
+        elif c < 9:
+            lines.append("  rset r%d, %d" % (d, rnd.randrange(1, 100)))
+        else:
+            lines.append("  jz r%d, _start" % d)
+    lines += ["  r2o r0, o0", "  j _start", "%endsection", "%meta cpdef cpu romcode:code, ramsize:0", "%meta iodef x type:io",
+              "%meta ioatt x cp:cpu, type:output, index:0", "%meta ioatt x cp:bm, type:output, index:0", ""]
+    flags = rnd.choice([["onlysrcregs"], ["onlydestregs"], ["onlysrcregs", "onlydestregs"]])
+    return {"kind": "bm", "bm": {"basm": "\n".join(lines), "nodyn": True}, "hwopt": flags}
+
+
 def run(res, a):
     failed = C.proof_part(res, "C18", trusted=[
         "lib/vparse.py + lib/vcoq.py (Verilog front-end; a file it cannot parse is reported as broken machinery unless the "
@@ -114,6 +137,8 @@ def run(res, a):
     rnd = random.Random(a.seed)
     n = 40 if a.tier == "quick" else 600
     reqs = [gen_machine(rnd, k) for k in range(n)]
+    hrnd = random.Random(a.seed + 5)
+    reqs += [gen_hwopt_request(hrnd) for _ in range(8 if a.tier == "quick" else 80)]
     if a.replay:
         reqs = [json.load(open(a.replay))["replay"]["machine"]]
     out = C.jsonl(C.sh([C.BMH, "vlog"], input="".join(json.dumps(r) + "\n" for r in reqs), timeout=1800).stdout)
